@@ -157,7 +157,8 @@ Section WithRle.
       assert (P32 : 2 ^ 31 < 2 ^ 32) by reflexivity.
       apply N.le_succ_l. apply N.log2_lt_pow2; [|lia].
       destruct (N.eq_dec (len d - 1) 0) as [Q|Q]; [rewrite Q in Es; contradiction Es; reflexivity|lia]. }
-    rewrite <- Lx, rle_roundtrip by assumption. rewrite N.ltb_irrefl.
+    assert (E62 : (2 ^ 62 <=? len vs) = false) by (apply N.leb_gt; eapply N.lt_trans; [exact Hl|reflexivity]).
+    rewrite E62. rewrite <- Lx, rle_roundtrip by assumption. rewrite N.ltb_irrefl.
     apply lookup_entries; try assumption; [reflexivity|].
     clear - F. revert ix F. induction vs as [|v t IH]; intros ix F; inversion F; subst; constructor; auto.
   Qed.
@@ -228,7 +229,7 @@ Section WithRleSafe.
     intros f. unfold dict_decode_fixed. destruct (out_count =? 0); [discriminate|].
     destruct (dc <=? 0)%Z; [discriminate|].
     destruct (len dict <? Z.to_N dc * N.of_nat k) eqn:E; [discriminate|]. apply N.ltb_ge in E.
-    destruct indices as [|bw stream]; [discriminate|].
+    destruct indices as [|bw stream]; [discriminate|]. destruct (2 ^ 62 <=? out_count); [discriminate|].
     pose proof (rle_nofault bw stream out_count) as NF. pose proof (rle_le_max bw stream out_count) as LE.
     destruct (rle_decode bw stream out_count) as [ix|c|e]; [|discriminate|exfalso; apply (NF e); reflexivity].
     destruct (len ix <? out_count); [discriminate|].
@@ -242,7 +243,7 @@ Section WithRleSafe.
     unfold dict_decode_fixed. destruct (out_count =? 0); [intros Q; injection Q as <-; unfold len; cbn [length]; lia|].
     destruct (dc <=? 0)%Z; [discriminate|].
     destruct (len dict <? Z.to_N dc * N.of_nat k) eqn:E; [discriminate|]. apply N.ltb_ge in E.
-    destruct indices as [|bw stream]; [discriminate|].
+    destruct indices as [|bw stream]; [discriminate|]. destruct (2 ^ 62 <=? out_count); [discriminate|].
     pose proof (rle_le_max bw stream out_count) as LE.
     destruct (rle_decode bw stream out_count) as [ix|c|e]; try discriminate.
     destruct (len ix <? out_count); [discriminate|]. specialize (LE _ eq_refl).
